@@ -115,9 +115,8 @@ impl<const LIMBS: usize> Uint<LIMBS> {
             let new_lower = lower
                 .overflowing_shl_vartime(shift)
                 .expect("shift within range");
-            let upper_lo = lower
-                .overflowing_shr_vartime(Self::BITS - shift)
-                .expect("shift within range");
+            // `shift == 0` shifts out every bit of `lower`: `wrapping_shr_vartime` returns zero then
+            let upper_lo = lower.wrapping_shr_vartime(Self::BITS - shift);
             let upper_hi = upper
                 .overflowing_shl_vartime(shift)
                 .expect("shift within range");
